@@ -303,6 +303,16 @@ pub fn gen_c08t(tier: Tier, seed: u64) -> Case {
     for _ in 0..g.r.range(2, 3) {
         let mut ops = vec![];
         for _ in 0..g.r.range(1, scale) {
+            // the keyspace wrapper's single-operation helpers are write transactions of their own:
+            // they wait for the single-writer lock like everybody else
+            if g.r.chance(1, 4) {
+                let key = g.key();
+                ops.push(match g.r.below(3) {
+                    0 => Op::TxKsRemove { ks: 0, key },
+                    _ => Op::TxKsInsert { ks: 0, key, val: g.val() },
+                });
+                continue;
+            }
             ops.push(Op::TxBegin { slot: 0, dur: None });
             let key = g.key();
             let id = g.next_val;
